@@ -292,6 +292,71 @@ func runUDPErrHandler(idx int) (*udpTrace, error) {
 	return &udpTrace{ID: fmt.Sprintf("udpgate:errhandler:%d", idx), Complete: true, Scen: map[string]any{"schedule": "handler returns an error, later datagrams"}, Hist: rec.Snapshot()}, nil
 }
 
+// runUDPTwoStage: two routes over UDP. Route 1 matches the first datagram; its non-terminal handler reads two datagrams
+// (the second one with a blocking Read) and passes on; route 2 needs more data, so the matching deadline is set AGAIN
+// on the virtual connection. Later datagrams of the client and of another client must still be served.
+func runUDPTwoStage(idx int) (*udpTrace, error) {
+	rec := vh.NewRecorder(nil)
+	pc := vh.NewFakePC(rec)
+	g := &udpGates{rec: rec, hold: map[string]chan struct{}{}, reached: map[string]chan struct{}{}}
+	layer4.SetVerifHook(g.hook)
+	defer layer4.SetVerifHook(nil)
+	ctx, cancel := caddy.NewContext(caddy.Context{Context: context.Background()})
+	defer cancel()
+	routes := []map[string]any{
+		{"match": []map[string]any{{"verif_m0": map[string]any{"at": 1, "v": "Y", "w": "Y"}}}, "handle": []map[string]any{{"handler": "verif_h", "k": "udp", "n": 2, "then": true}}},
+		{"match": []map[string]any{{"verif_m1": map[string]any{"at": 100, "v": "Y", "w": "Y"}}}, "handle": []map[string]any{{"handler": "verif_h", "k": "udp", "n": 100}}},
+	}
+	b, _ := json.Marshal(routes)
+	srv := &layer4.Server{MatchingTimeout: caddy.Duration(5 * time.Second)}
+	if err := json.Unmarshal(b, &srv.Routes); err != nil {
+		return nil, err
+	}
+	if err := srv.Provision(ctx, zap.NewNop()); err != nil {
+		return nil, err
+	}
+	vh.RegisterRec(vh.ClientAddr(1).String(), rec)
+	vh.RegisterRec(vh.ClientAddr(2).String(), rec)
+	go layer4.VerifServePacket(srv, pc)
+	pc.Inject(1, 1, 64)
+	time.Sleep(40 * time.Millisecond)
+	pc.Inject(1, 2, 64)
+	time.Sleep(40 * time.Millisecond)
+	for seq := 3; seq <= 5; seq++ {
+		pc.Inject(1, seq, 64)
+		time.Sleep(15 * time.Millisecond)
+	}
+	time.Sleep(150 * time.Millisecond)
+	rec.Add(vh.Ev{"e": "Settled"})
+	injected := make(chan struct{})
+	go func() {
+		defer close(injected)
+		pc.Inject(2, 6, 64)
+		time.Sleep(15 * time.Millisecond)
+		for seq := 7; seq <= 12; seq++ {
+			pc.Inject(1, seq, 64)
+			time.Sleep(15 * time.Millisecond)
+		}
+		pc.Inject(2, 13, 64)
+	}()
+	select {
+	case <-injected:
+	case <-time.After(3 * time.Second):
+	}
+	last, stable := -1, 0
+	for i := 0; i < 400 && stable < 10; i++ {
+		time.Sleep(5 * time.Millisecond)
+		if n := rec.Len(); n == last {
+			stable++
+		} else {
+			last, stable = n, 0
+		}
+	}
+	pc.Close()
+	time.Sleep(5 * time.Millisecond)
+	return &udpTrace{ID: fmt.Sprintf("udpgate:twostage:%d", idx), Complete: true, Scen: map[string]any{"schedule": "two routes: non-terminal reader, then a route that needs more data"}, Hist: rec.Snapshot()}, nil
+}
+
 // runUDPMultiClose: n associations, each closed by 8 goroutines at once plus the server's own deferred Close.
 func runUDPMultiClose(n int) error {
 	rec := vh.NewRecorder(nil)
@@ -346,6 +411,14 @@ func init() {
 		for i := 0; i < 3; i++ {
 			fmt.Printf("SCENARIO errhandler %d\n", i)
 			tr, err := runUDPErrHandler(i)
+			if err != nil {
+				return err
+			}
+			lw.Write(tr)
+		}
+		for i := 0; i < 3; i++ {
+			fmt.Printf("SCENARIO twostage %d\n", i)
+			tr, err := runUDPTwoStage(i)
 			if err != nil {
 				return err
 			}
